@@ -1,7 +1,7 @@
 //! C14 (wire-format name decoding) and C16 (text form, equality, ordering).
 use std::collections::hash_map::DefaultHasher;
 use std::hash::{Hash, Hasher};
-use std::panic::catch_unwind;
+use std::panic::{catch_unwind, AssertUnwindSafe};
 
 use quandary::name::Name;
 use rand::rngs::StdRng;
@@ -122,6 +122,19 @@ fn wire_structured(r: &mut StdRng, out: &mut Out, n: usize) {
                 }
             }
         }
+        // a name reached through a long chain of pointers, each pointing at the previous one (126..130 and 200 hops): legal
+        // as long as every pointer leads backwards
+        if r.gen_bool(0.04) {
+            let hops = *[126usize, 127, 128, 129, 130, 200].choose(r).unwrap();
+            let mut v = if r.gen_bool(0.5) { vec![0u8] } else { vec![1, b'r', 0] };
+            let mut prev = 0usize;
+            for _ in 0..hops { let at = v.len(); v.push(0xc0 | (prev >> 8) as u8); v.push((prev & 0xff) as u8); prev = at; }
+            wire_record(out, &v, prev);
+            let mut v2 = v.clone();
+            let at = v2.len();
+            v2.extend_from_slice(&[1, b'l', 0xc0 | (prev >> 8) as u8, (prev & 0xff) as u8]);
+            wire_record(out, &v2, at);
+        }
         // messages longer than 1 KiB / 4 KiB / close to the 16 KiB reach of a pointer: the target offset uses all 14 bits
         if r.gen_bool(0.06) {
             let t = *[1024usize, 1025, 1279, 1536, 2048, 3000, 4095, 4096, 8192, 12345, 16380, 16383].choose(r).unwrap();
@@ -137,6 +150,60 @@ fn wire_structured(r: &mut StdRng, out: &mut Out, n: usize) {
             wire_record(out, &v, tgt);
         }
     }
+}
+
+/// C16, NameBuilder: random operation sequences on the real builder, continued after errors. Slices and label
+/// lengths are biased towards the limits (63-octet labels, a buffer filled to 253..255 octets) because that is
+/// where the length checks live.
+fn builder(r: &mut StdRng, out: &mut Out, n: usize) {
+    use quandary::name::NameBuilder;
+    let errname = |e: quandary::name::Error| -> String { format!("{:?}", e) };
+    let suffixes: Vec<Vec<Vec<u8>>> = vec![vec![], vec![b"a".to_vec()], vec![b"example".to_vec(), b"test".to_vec()],
+        vec![vec![b's'; 63]], vec![vec![b's'; 63], vec![b't'; 62]], vec![vec![b'u'; 30], vec![b'v'; 31], vec![b'w'; 1]]];
+    for _ in 0..n {
+        let mut ops: Vec<Value> = Vec::new();
+        let near_full = r.gen_bool(0.5);
+        let res = catch_unwind(AssertUnwindSafe(|| {
+            let mut b = NameBuilder::new();
+            let nops = r.gen_range(1..40);
+            let mut fill = 1usize; // what the harness believes the buffer holds (only to steer the generator)
+            for i in 0..nops {
+                let last = i + 1 == nops;
+                let k = if last { r.gen_range(90..100) } else { r.gen_range(0..100) };
+                if k < 45 {
+                    // push: one octet, a short slice, or a slice sized to land on / next to a limit
+                    let len = if near_full && fill < 250 && r.gen_bool(0.5) { *[63usize, 62, 61, 64, 30].choose(r).unwrap() }
+                              else if near_full && r.gen_bool(0.5) { (255usize.saturating_sub(fill)).min(64).saturating_sub(r.gen_range(0..3)) }
+                              else { *[1usize, 1, 2, 5, 0].choose(r).unwrap() };
+                    let octets: Vec<u8> = (0..len).map(|_| if r.gen_bool(0.8) { r.gen_range(b'a'..=b'z') } else { r.gen() }).collect();
+                    let res = if octets.len() == 1 && r.gen_bool(0.5) { b.try_push(octets[0]) } else { b.try_push_slice(&octets) };
+                    if res.is_ok() { fill += octets.len(); }
+                    ops.push(json!({"op": "push", "arg": octets, "res": res.map(|_| "ok".to_string()).unwrap_or_else(errname), "fq": b.is_fully_qualified()}));
+                } else if k < 90 {
+                    let res = b.next_label();
+                    if res.is_ok() { fill += 1; }
+                    ops.push(json!({"op": "next", "arg": [], "res": res.map(|_| "ok".to_string()).unwrap_or_else(errname), "fq": b.is_fully_qualified()}));
+                } else if k < 95 {
+                    let res = b.finish();
+                    ops.push(match res { Ok(nm) => json!({"op": "finish", "arg": [], "res": "ok", "fq": false, "name": nm.wire_repr().to_vec()}),
+                                         Err(e) => json!({"op": "finish", "arg": [], "res": errname(e), "fq": false, "name": []}) });
+                    return;
+                } else {
+                    let sfx = suffixes.choose(r).unwrap().clone();
+                    let sname = name_of_wire(&wire_of_labels_or_root(&sfx));
+                    let res = b.finish_with_suffix(&sname);
+                    ops.push(match res { Ok(nm) => json!({"op": "suffix", "arg": sfx, "res": "ok", "fq": false, "name": nm.wire_repr().to_vec()}),
+                                         Err(e) => json!({"op": "suffix", "arg": sfx, "res": errname(e), "fq": false, "name": []}) });
+                    return;
+                }
+            }
+        }));
+        out.emit(json!({"ev": "Builder", "ops": ops, "out": if res.is_ok() { "ok" } else { "panic" }}));
+    }
+}
+
+fn wire_of_labels_or_root(labels: &[Vec<u8>]) -> Vec<u8> {
+    if labels.is_empty() { vec![0] } else { wire_of_labels(labels) }
 }
 
 fn text(r: &mut StdRng, out: &mut Out, n: usize) {
@@ -166,7 +233,10 @@ fn text(r: &mut StdRng, out: &mut Out, n: usize) {
         let text = nm.to_string();
         let back = match text.parse::<Box<Name>>() { Ok(b) => json!({"out": "ok", "name": b.wire_repr().to_vec()}), Err(_) => json!({"out": "err"}) };
         let mut pre_panic = false;
-        let w2 = if let Some(b) = forced_b { b } else if r.gen_bool(0.4) {
+        let w2 = if let Some(b) = forced_b { b } else if r.gen_bool(0.08) {
+            // differs from a only in bit 5 of octets that are not letters
+            bit5_variant(r, &w)
+        } else if r.gen_bool(0.4) {
             let mut v = w.clone();
             for b in v.iter_mut() { if b.is_ascii_alphabetic() && r.gen_bool(0.5) { *b ^= 0x20; } }
             v
@@ -225,6 +295,7 @@ pub fn main(args: &[String]) {
         "wire" => wire_exhaustive(&mut out, n),
         "wirebig" => wire_structured(&mut r, &mut out, n),
         "text" => text(&mut r, &mut out, n),
+        "builder" => builder(&mut r, &mut out, n),
         _ => panic!("unknown names mode"),
     }
     eprintln!("names/{}: {} records", mode, out.finish());
